@@ -43,6 +43,21 @@ func main() {
 		}
 		fmt.Printf("replaying rule %s (obligation %s)\n", m.Rule, m.Key)
 		os.Exit(doCheck(m.Property, "thorough", *repo, m.Rule, true, false))
+	case "list-json":
+		sort.SliceStable(allRules, func(i, j int) bool { return allRules[i].ID < allRules[j].ID })
+		type jr struct {
+			ID       string   `json:"id"`
+			Props    []string `json:"props"`
+			Min      int      `json:"min"`
+			Thorough bool     `json:"thorough"`
+			Doc      string   `json:"doc"`
+		}
+		var out []jr
+		for _, r := range allRules {
+			out = append(out, jr{r.ID, r.Props, r.Min, r.Thorough, r.Doc})
+		}
+		b, _ := json.MarshalIndent(out, "", " ")
+		fmt.Println(string(b))
 	case "list-md":
 		sort.SliceStable(allRules, func(i, j int) bool { return allRules[i].ID < allRules[j].ID })
 		fmt.Println("| rule | serves | min. instances | what is decided |")
